@@ -18,6 +18,7 @@ sys.path.insert(0, os.path.join(VERIF, "harness", "irgen"))
 import ir2lean  # noqa: E402
 import obligations  # noqa: E402
 import opsgen  # noqa: E402
+import fopsgen  # noqa: E402
 
 NFILES = 16
 GEN_DIR = os.path.join(LEAN, "LlgoVerif", "Gen")
@@ -171,6 +172,7 @@ def run(ctx, args):
     if silent:
         ctx.report_broken("C02 obligations: " + ", ".join(silent[:6]) + (" (+%d more)" % (len(silent) - 6) if len(silent) > 6 else ""),
                           {"theorems": {n: st.get(n, untranslated.get(n.split(":")[-1])) for n in silent[:50]}})
+    fstats = float_phase(ctx, quick)
     ctx.coverage["samples"] = [obligations.theorem(obs[0]).strip(), lines_real[0] + "  -> spec " + spec_out[0],
                                {"function": "Shl_int32_uint64", "ir_lean": [c for ch in chunks for c in ch if c.startswith("def Shl_int32_uint64 ")][:1]}]
     ctx.coverage["trusted_base"] += [
@@ -186,8 +188,108 @@ def run(ctx, args):
         "input_distribution": {"functions": len(obs), "translated": len(obs) - len(untranslated), "opt_levels": [l for l, _ in progs],
                                "lines_per_level": len(lines_real)},
         "functions_with_wrong_results": sorted(bad_fns)[:50],
+        "float_complex_execution_tie": fstats,
         "checker_cmd": "cd /verif/lean && lake build LlgoVerif.Gen.C02_00 .. C02_%02d LlgoVerif.Props.C02 (regenerated from llgo's IR) + #print axioms audit" % (NFILES - 1),
     })
+
+
+def canon(v, rw):
+    """canonicalise NaN bit patterns (payload and sign are not fixed by the Go spec)"""
+    if rw == 64 and (v & 0x7ff0000000000000) == 0x7ff0000000000000 and (v & 0x000fffffffffffff) != 0:
+        return "nan"
+    if rw == 32 and (v & 0x7f800000) == 0x7f800000 and (v & 0x007fffff) != 0:
+        return "nan"
+    return str(v)
+
+
+def float_phase(ctx, quick):
+    """floats and complex numbers: differential execution against the reference Go toolchain (no theorem)"""
+    rng = ctx.rng
+    src, cases, files = fopsgen.generate()
+    d = os.path.join(ctx.scratch, "fops")
+    files = dict(files)
+    files["fops/fops.go"] = src
+    write_module(d, files)
+    pr = run_cmd(["go", "build", "-tags", "goref", "-o", os.path.join(d, "ref"), "."], d, go_env())
+    if pr.returncode != 0:
+        raise RuntimeError("reference build of the float evaluator failed (generator bug):\n" + (pr.stdout + pr.stderr)[-2000:])
+    progs = []
+    for lvl in ("O0", "O2"):
+        out = os.path.join(d, "prog" + lvl)
+        p = llgo_build(ctx, d, out, "-" + lvl)
+        if p.returncode != 0:
+            raise HarnessBuildError("llgo could not compile the float/complex operator package at -%s:\n%s" % (lvl, (p.stdout + p.stderr)[-2000:]))
+        progs.append((lvl, out))
+    lines, meta = [], []
+    for i, c in enumerate(cases):
+        k = c["kind"]
+        w = c["w"]
+        if k in ("fbin", "fcmp"):
+            fb = fopsgen.fboundary(w) + [rng.getrandbits(w) for _ in range(4)]
+            if quick:
+                fb2 = fb[::2] + fb[-3:]
+            else:
+                fb2 = fb
+            ops_ = [(a, b, 0, 0) for a in fb for b in fb2]
+        elif k == "fun":
+            ops_ = [(a, 0, 0, 0) for a in fopsgen.fboundary(w) + [rng.getrandbits(w) for _ in range(16)]]
+        elif k == "i2f":
+            ops_ = [(a, 0, 0, 0) for a in boundary(w) + [rng.getrandbits(w) for _ in range(8)]]
+        elif k == "f2i":
+            fw = c["fw"]
+            cand = fopsgen.fboundary(fw) + [rng.getrandbits(fw) for _ in range(40)]
+            ops_ = [(a, 0, 0, 0) for a in cand if fopsgen.representable(a, fw, w, c["s"])]
+        elif k in ("cbin", "ccmp"):
+            fb = fopsgen.fboundary(w)
+            ops_ = [(rng.choice(fb), rng.choice(fb), rng.choice(fb), rng.choice(fb)) for _ in range(150 if quick else 3000)]
+            ops_ += [(a, b, a, b) for a in fb[:12] for b in fb[:12]]
+        else:  # cun
+            fb = fopsgen.fboundary(w)
+            ops_ = [(a, b, 0, 0) for a in fb for b in fb[::3]]
+        for o4 in ops_:
+            lines.append("%d %d %d %d %d" % ((i,) + o4))
+            meta.append((i, o4))
+    inp = "\n".join(lines) + "\n"
+    _, ref_err, _ = run_prog(os.path.join(d, "ref"), input=inp, timeout=1800)
+    ref = [l for l in ref_err.split("\n") if l]
+    n_eval, bad = 0, {}
+
+    def rwidth(c):
+        n = c["name"]
+        if c["kind"] in ("fcmp", "ccmp", "f2i"):
+            return 0
+        if n == "Conv_float64_float32" or n == "Conv_complex128_complex64":
+            return 32
+        if n == "Conv_float32_float64" or n == "Conv_complex64_complex128":
+            return 64
+        if c["kind"] == "i2f":
+            return c["fw"]
+        return c["w"]
+
+    for lvl, prog in progs:
+        _, err, rc = run_prog(prog, input=inp, timeout=1800)
+        got = [l for l in err.split("\n") if l]
+        if len(got) != len(lines) or len(ref) != len(lines):
+            ctx.report_broken("float-evaluator-%s" % lvl, "evaluator answered %d/%d lines (reference %d), rc=%s" % (len(got), len(lines), len(ref), rc))
+            continue
+        for k_, (g, r) in enumerate(zip(got, ref)):
+            n_eval += 1
+            i, o4 = meta[k_]
+            rw = rwidth(cases[i])
+            gv = [canon(int(x), rw) if x.isdigit() else x for x in g.split(" ")[1:]]
+            rv = [canon(int(x), rw) if x.isdigit() else x for x in r.split(" ")[1:]]
+            if cases[i]["kind"] == "f2i":
+                m = (1 << cases[i]["w"]) - 1
+                gv = [str(int(x) & m) for x in gv]
+                rv = [str(int(x) & m) for x in rv]
+            if gv != rv:
+                bad.setdefault(cases[i]["name"], []).append((lvl, o4, gv, rv))
+    for name, lst in sorted(bad.items()):
+        lvl, o4, gv, rv = lst[0]
+        ctx.report("farith:%s" % name, "%s%s = %s at -%s (bit patterns), the reference toolchain gives %s" % (name, o4, gv, lvl, rv),
+                   {"function": name, "operands_bits": o4, "llgo": gv, "reference": rv, "opt": lvl, "more": lst[1:6]})
+    return {"functions": len(cases), "lines_per_level": len(lines), "evaluations": n_eval, "functions_with_wrong_results": sorted(bad),
+            "oracle": "same source built with the reference Go toolchain; NaN payloads canonicalised; float->int only on representable operands"}
 
 
 def run_cmd(cmd, cwd, env):
